@@ -7,7 +7,7 @@ import RV.Base.Proto
         l₀ = Literal(s, dt, normalize=False), l₁ = Literal(s, dt), n₁ = l₀.normalize(), n₂ = n₁.normalize()
     py <pyspec>                          → py|dt|valid|back[|spell]
         l = Literal(v); valid = lexical form in the XSD lexical space (Lean recogniser); back = value of re-reading it
-    eq <lit> <lit>                       → eq|term-equal|eq-result           lit = L <dt|-> <cps> <0|1> | P <pyspec>
+    eq <lit> <lit>                       → eq|term-equal (spelling mode only, else -)|eq-result     lit = L <dt|-> <cps> <0|1> | P <pyspec>
     spell 0|1                            → ok      (also print the exact lexical forms; development diagnostic)
     skip                                 → unmodelled   (the harness declares the case outside the model)
   pyspec: int i | bool 0|1 | dec 0|1 coeff exp | str cps | date y m d | time h mi s us tz|- |
@@ -63,7 +63,7 @@ def decFragment (s : Str) : Bool :=
   let t := match t with | '+' :: r => r | '-' :: r => r | r => r
   (match t with
    | c :: _ => !(lowerC c == 'i' || lowerC c == 'n' || lowerC c == 's')
-   | [] => true) && (afterExp t).length ≤ 4
+   | [] => true) && (afterExp t).length ≤ 3
 
 def tokShort (t : Option NumTok) : Bool :=
   match t with
@@ -175,11 +175,12 @@ def pyLine (st : St) (v : PyVal) : String :=
     let base := s!"py|{dtS}|{b01 (Spec.validLexOpt l.dt l.lex)}|{backS}"
     if st.spell then s!"{base}|{showCps l.lex}" else base
 
-def eqLine (a b : LitR) : String :=
+def eqLine (st : St) (a b : LitR) : String :=
   match a, b with
   | .lit x, .lit y =>
     let e := match x.eq y with | some true => "1" | some false => "0" | none => "TypeError"
-    s!"eq|{b01 (x.termEq y)}|{e}"
+    let t := if st.spell then b01 (x.termEq y) else "-"
+    s!"eq|{t}|{e}"
   | .unmodelled, _ => "unmodelled"
   | _, .unmodelled => "unmodelled"
   | _, _ => "eq|raise"
@@ -199,7 +200,7 @@ def step (st : St) : List String → St × String
     match litSpec? r with
     | some (a, r') =>
       match litSpec? r' with
-      | some (b, []) => (st, eqLine a b)
+      | some (b, []) => (st, eqLine st a b)
       | _ => (st, "bad-op")
     | none => (st, "bad-op")
   | _ => (st, "bad-op")
